@@ -23,6 +23,8 @@ def source_kind(n):
     c = n.get('c', [])
     if cal in ('libcellml::owningModel', 'libcellml::owningComponent'):
         return fn
+    if cal == 'libcellml::mathmlChildNode':
+        return 'mathmlChildNode'
     if cal == 'std::dynamic_pointer_cast':
         return 'dynamic_pointer_cast'
     if fn == 'lock' and 'weak_ptr' in n.get('cls', ''):
@@ -171,6 +173,10 @@ def run(F, rep, rid, kinds=None):
         if kinds is not None and kind not in kinds:
             continue
         key = '%s|%s|%s' % (f.short + '/%d' % len(f.params), kind, (var or render(src))[:50])
+        if kind == 'mathmlChildNode':
+            # which MathML element is being taken apart: the arity the validator guarantees differs per element
+            els = sorted({m_.group(1) for cnd, t in (ff(f).rendered_conds_at(deref) or set()) if t for m_ in [__import__('re').search(r'isMathmlElement\("(\w+)"\)', cnd)] if m_})
+            key += '|in <%s>' % (','.join(els) if els else '?')
         how = discharged(F, f, src, kind, deref, var)
         prev = seen.get(key)
         if prev == 'fail':
